@@ -16,8 +16,8 @@ ID = "C11"
 CASES = {"quick": 4000, "thorough": 50000}
 FLOOR = {"quick": 3500, "thorough": 45000}
 FLOOR_COUNTERS = {
-    "quick": {"fits_judged": 3500, "replication_pairs": 700, "rejections_judged": 3000, "zero_weight_fits": 300, "estimators_with_a_past": 5000, "block_boundary_sizes": 80, "fits_through_fit_transform": 900, "configured_not_by_constructor": 1500, "non_default_containers": 1500},
-    "thorough": {"fits_judged": 45000, "replication_pairs": 9000, "rejections_judged": 40000, "zero_weight_fits": 4000, "estimators_with_a_past": 60000, "block_boundary_sizes": 1000, "fits_through_fit_transform": 12000, "configured_not_by_constructor": 20000, "non_default_containers": 20000},
+    "quick": {"rejected_calls_in_the_history": 2000, "numpy_scalar_parameters": 500, "fits_judged": 3500, "replication_pairs": 700, "rejections_judged": 3000, "zero_weight_fits": 300, "estimators_with_a_past": 5000, "block_boundary_sizes": 80, "fits_through_fit_transform": 900, "configured_not_by_constructor": 1500, "non_default_containers": 1500},
+    "thorough": {"rejected_calls_in_the_history": 25000, "numpy_scalar_parameters": 6000, "fits_judged": 45000, "replication_pairs": 9000, "rejections_judged": 40000, "zero_weight_fits": 4000, "estimators_with_a_past": 60000, "block_boundary_sizes": 1000, "fits_through_fit_transform": 12000, "configured_not_by_constructor": 20000, "non_default_containers": 20000},
 }
 RULE = (
     "case = X (n>=2, 1-10 columns, column scales 1e-3..1e3, offsets up to 1e3), the 8 with_mean/with_std/column_wise "
@@ -66,6 +66,8 @@ def gen(rng, tier, index):
         "how": gens.pick(rng, forms.CONFIGURE),
         "xform": gens.pick(rng, forms.PRESENT),
         "carry": gens.pick(rng, forms.CARRY),
+        "reject": bool(rng.random() < 0.4),
+        "npscalars": bool(rng.random() < 0.3),
         "past": bool(rng.random() < 0.4),  # the scaler object has been fitted before (other data, weights, flags)
         "pseed": int(rng.integers(1 << 30)),
     }
@@ -99,7 +101,8 @@ def run(case, j):
         """A fresh scaler, or one with a past: fitted on other data with the same number of rows (weighted, other
         flags and tolerances), then re-configured with set_params."""
         if not case.get("past"):
-            return forms.configure(SFS, dict(kw, **more), case.get("how", "ctor"))
+            pr_ = dict(kw, **more)
+            return forms.configure(SFS, forms.numpy_scalars(pr_) if case.get("npscalars") else pr_, case.get("how", "ctor"))
         pr = np.random.default_rng(case["pseed"] + len(label))
         e = SFS(with_mean=bool(pr.random() < 0.7), with_std=bool(pr.random() < 0.7), column_wise=bool(pr.random() < 0.5), atol=0.0, rtol=0.0)
         n0 = n if pr.random() < 0.8 else int(pr.integers(2, 30))
@@ -122,6 +125,8 @@ def run(case, j):
 
     if case.get("edge"):
         j.note("block_boundary_sizes")
+    if case.get("npscalars") and not case.get("past"):
+        j.note("numpy_scalar_parameters")
     if case.get("how", "ctor") != "ctor":
         j.note("configured_not_by_constructor")
     if case.get("xform", "C") != "C":
@@ -133,6 +138,10 @@ def run(case, j):
         j.lib("fit", est.fit, Xin, sample_weight=None if w is None else w.copy())
     j.note("fits_judged")
     est = forms.carry(est, case.get("carry", "same"), j)  # what transforms afterwards may be a copy of what was fitted
+    if case.get("reject"):
+        # a failure in the history: a refit with weights of the wrong length is refused; the fitted scaler stays what it was
+        forms.rejected(j, "refit with sample weights of another length", est.fit, X, sample_weight=np.ones(n + 3))
+        forms.rejected(j, "refit with 2-D sample weights", est.fit, X, sample_weight=np.ones((n, 2)))
     if w is not None and np.any(np.asarray(w) == 0):
         j.note("zero_weight_fits")
     T = np.asarray(est.transform(X))
